@@ -17,7 +17,7 @@
   decidable hypotheses (`levelOK` at every level) exclude exactly the remaining region (`Sync` fails
   at a nested level).
 -/
-import TypedpyModel.Lemmas.Mappers
+import TypedpyModel.Lemmas.MappersRegion
 namespace Typedpy.C07
 open Typedpy.Mappers
 
@@ -367,6 +367,69 @@ theorem flat_round_trip (S : StrFns) (camel : Bool) (c : Cls) (ov : Option MDict
   exact ⟨⟨⟨⟨syncOK_top S c.own c.fields ov camel kvs hkeys, hdot⟩, hinj⟩, habs⟩,
     flat_rtFields S camel _ _ _ c.fields kvs hflat hconf⟩
 
+
+/-! ### nested levels: the serializer's aggregate *is* the specification, and `Sync` holds in a region -/
+
+/-- **`Sem.ser = Spec.specSer` at every nesting depth**: for every class tree (distinct field names per
+    level), every mapper list / override / `camel_case_convert` and every fitting instance, the
+    serialized document is the one the pointwise specification prescribes — nested structures under
+    `own ++ (what the outer list lets through)`.  The dict-of-dicts algorithm, including the "latest
+    mapper already maps to this value" branch on nested `"<field>._mapper"` entries, is a refinement
+    of the composition of mapper lists. -/
+theorem spec_ser_eq_ser (S : StrFns) (camel : Bool) (c : Cls) (ov : Option MDict) (x : J)
+    (hw : wfFields c.fields = true) (hc : conf c.fields x = true) :
+    serialize S camel c ov x = specSer S (effList c.own ov camel) c.fields x :=
+  c07_ser_eq_spec S camel x _ _ c.fields (c07_aggregate_agrees S c.own c.fields ov camel hw) hc
+
+/-- the serializer's resolved mapper agrees with the mapper lists at every depth -/
+theorem ser_aggregate_pointwise_every_level (S : StrFns) (c : Cls) (ov : Option MDict) (camel : Bool)
+    (hw : wfFields c.fields = true) :
+    AgreesFs S (aggregate S true c.own c.fields ov camel) (effList c.own ov camel) c.fields :=
+  c07_aggregate_agrees S c.own c.fields ov camel hw
+
+/-- inside `regionOK` the deserializer's aggregate of the top class is the shape list of its mapper list -/
+theorem deser_aggregate_shape (S : StrFns) (c : Cls) (ov : Option MDict) (h : regionOK S c ov = true) :
+    aggregate S false c.own c.fields ov false = shapeFields S (effList c.own ov false) c.fields := by
+  simp only [regionOK, and_true_iff'] at h
+  exact c07_foldAdd_base S c.fields _ h.1.1.1.2 h.1.1.2
+
+/-- **`Sync` is a theorem inside the region.**  `regionOK` is a decidable predicate on the class tree
+    and its mapper lists alone: plain mappers (enum mappers, dicts of string / `DoNotSerialize` values
+    without `"<field>._mapper"` entries) on the top class and on the classes nested directly in it, no
+    own mapper on classes nested deeper, every nested field mapped to a string key under which its
+    re-keyed nested entry is found, and no two re-keyed nested entries colliding in any round.  There
+    the level hypotheses `levelOK` (with `Sync`) follow at *every* depth from the demanded domain. -/
+theorem sync_in_region (S : StrFns) (c : Cls) (ov : Option MDict) (strict : Bool) (x : J)
+    (hreg : regionOK S c ov = true)
+    (h : rtCls S false (levelDomE S) c (aggregate S true c.own c.fields ov false) ov strict x = true) :
+    rtCls S false (levelOK S) c (aggregate S true c.own c.fields ov false) ov strict x = true := by
+  have hM := deser_aggregate_shape S c ov hreg
+  simp only [regionOK, and_true_iff'] at hreg
+  obtain ⟨⟨⟨⟨hw, hplain⟩, _⟩, hnod⟩, hnested⟩ := hreg
+  cases x with
+  | obj kvs =>
+    simp only [rtCls, and_true_iff'] at h ⊢
+    refine ⟨c07_level_of_lookups S _ _ strict kvs h.1
+      (fun p _ => (ser_deser_same_field_keys S c.own c.fields ov false p.1).symm), ?_⟩
+    rw [hM] at h ⊢
+    exact c07_sync_fields S c.fields c.fields _ _ kvs hplain hnod
+      (c07_aggregate_agrees S c.own c.fields ov false hw) (fun g hg => hg)
+      (fun g hg => all_mem hnested hg) h.2
+  | null => simp [rtCls] at h
+  | int i => simp [rtCls] at h
+  | str s => simp [rtCls] at h
+  | arr xs => simp [rtCls] at h
+
+/-- **Round trip, unconditional on the region, any depth.**  For every class tree and mapper lists in
+    `regionOK` and every instance inside the demanded domain at every level (every field resolved to
+    a string key or an absent `DoNotSerialize` field, no dotted key, populated keys distinct and not an
+    absent field's key): `deserialize(serialize(x)) = x`, strict or not.  No `Sync` hypothesis. -/
+theorem mapper_round_trip_region (S : StrFns) (c : Cls) (ov : Option MDict) (strict : Bool) (x : J)
+    (hreg : regionOK S c ov = true)
+    (h : rtCls S false (levelDomE S) c (aggregate S true c.own c.fields ov false) ov strict x = true) :
+    deser S false c ov strict (serialize S false c ov x) = .ok x :=
+  mapper_round_trip_serialize S false c ov strict x (sync_in_region S c ov strict x hreg h)
+
 /-! ### wrapper validation -/
 
 /-- An explicit mapper with a key whose first dotted component is not a field name is rejected when
@@ -480,6 +543,31 @@ theorem round_trip_example :
         none false rtInst2 = true
     ∧ imageKeys upFns false (aggregate upFns true rtCls2.own rtCls2.fields none false)
         [("a", .int 1), ("o", .null), ("n", .arr [])] = ["k", "n"] := by
+  decide
+
+def rgG : List Fld := [.scalar "a" false, .scalar "b" true]
+def rgMid : List Fld := [.nested "g" false .one [] rgG, .scalar "z" false]
+def rgTop : Cls :=
+  ⟨[.dict [(.fld "m", .key "mm")], .lower],
+   [.nested "m" false .many [.dict [(.fld "g", .key "gg")]] rgMid, .scalar "a" true]⟩
+def rgInst : J :=
+  .obj [("m", .arr [.obj [("g", .obj [("a", .int 1), ("b", .null)]), ("z", .int 3)],
+                    .obj [("g", .obj [("a", .int 2), ("b", .int 5)]), ("z", .int 4)]]),
+        ("a", .null)]
+
+/-- non-vacuity of `mapper_round_trip_region`: a three-level tree (dict + TO_LOWERCASE on the top class,
+    a dict on the class nested in a list, a grand-nested class) is inside the region, its instance
+    inside the demanded domain, the grand-nested key is the upper-cased one; and the class tree of
+    the open finding `nested-resync` (own rename two levels down) is outside the region -/
+theorem region_example :
+    regionOK upFns rgTop none = true
+    ∧ rtCls upFns false (levelDomE upFns) rgTop (aggregate upFns true rgTop.own rgTop.fields none false)
+        none false rgInst = true
+    ∧ isOkEq (.ok (serialize upFns false rgTop none rgInst))
+        (fun d => match d with
+          | .obj [("mm", .arr [.obj [("gg", .obj [("a", .int 1)]), ("Z", .int 3)], _])] => true
+          | _ => false) = true
+    ∧ regionOK upFns topCls none = false := by
   decide
 
 end Typedpy.C07
